@@ -147,7 +147,12 @@ def _weak(x):
 
 def array_binop(op, a, b):
     if op == "MatMult":
-        raise Unsupported("matmul with symbolic operands")
+        from . import models          # a @ b is np.matmul(a, b)
+        r = models._matmul(None, [a, b], {})
+        if r is NotImplemented:
+            raise Unsupported("matmul with symbolic operands")
+        models.USED.add("matmul")
+        return r
     aa, bb = A.as_sarr(a), A.as_sarr(b)
     wa, wb = _weak(a), _weak(b)
     # NEP 50: python scalars are weak
